@@ -297,6 +297,7 @@ def run(plan, stats):
     intact = '\n'.join(phys) + '\n'
     model0, err0, other0 = parse_text(intact, start)
     if model0 is None:
+        stats.c['generated_program_rejected_by_the_parser'] += 1
         return RunResult([], digest_of('invalid-program'))
     frng = stream(plan.get('fault_seed', 0), 'faults')
     _p, logicals0 = reflines.logical_lines(intact)
